@@ -8,7 +8,7 @@ Extraction "model.ml"
   str_eqb str_cmp sort_strs lit json_eqb den canon strip gv_wf equalValue hash_stream jsonType jsonNumber
   unmarshal marshal doc_value decode_any decode_any_iface enc_gv ordered_keys
   dereferenceJSONPointer escape_seg subschema_at children all_sub
-  parse_uri resolve_reference uri_string decode_fragment utf8_encode utf8_decode
+  parse_uri resolve_reference uri_string decode_fragment utf8_encode utf8_decode drop_frag is_abs empty_uri
   JS.res.Resolve.Resolve JS.val.Validate.Validate validate empty_schema is_zero_schema
   spec_valid spec_eval all_setters
   Z.add Z.mul Z.opp Z.of_nat N.of_nat Z.to_nat N.to_nat Z.of_N Pos.of_nat Qred.
